@@ -44,13 +44,20 @@ def relayout(sketch, how):
     return sketch
 
 
-def make(cfg, shared_memory=False):
-    sketch = _make(cfg, shared_memory)
-    if LAYOUTS and not shared_memory:
+def maybe_relayout(sketch):
+    """Apply the per-case layout cycle to a sketch the caller constructed itself (not shared-memory backed)."""
+    if LAYOUTS and getattr(sketch, "shm", None) is None and getattr(sketch, "existing_shm", None) is None:
         _LAYOUT_N[0] += 1
         how = {5: "rebound", 9: "strided", 13: "fortran"}.get(_LAYOUT_N[0] % 16)
         if how:
             relayout(sketch, how)
+    return sketch
+
+
+def make(cfg, shared_memory=False):
+    sketch = _make(cfg, shared_memory)
+    if not shared_memory:
+        maybe_relayout(sketch)
     return sketch
 
 
@@ -190,7 +197,7 @@ class Prober:
             pc = {"kind": "linear", "width": cfg["width"], "depth": cfg.get("depth", 8)}
             # the three count-min types are documented to share the row hash; probing each kind
             # separately is done by C05/C14 where it matters (see probe_native)
-        self.sk = make(pc)
+        self.sk = _make(pc)  # a measuring instrument: arrays as the library allocated them
         self.table = self.sk.lhh_count if self.kind == "hh" else self.sk.cms
         self.cache = {}
 
@@ -246,7 +253,7 @@ class NativeProber(Prober):
     def __init__(self, cfg):
         self.cfg = dict(cfg)
         self.kind = cfg["kind"]
-        self.sk = make(cfg)
+        self.sk = _make(cfg)
         self.table = self.sk.lhh_count if self.kind == "hh" else self.sk.cms
         self.cache = {}
 
@@ -347,6 +354,10 @@ def duplicate(sketch, how):
         return copy.deepcopy(sketch)
     if how == "pickle":
         return pickle.loads(pickle.dumps(sketch))
+    if how == "shallow":
+        # a true shallow copy shares its arrays with the original; the callers drop the original at once, so the copy is the only
+        # user of them from then on (anything that recycles or releases a dropped sketch's arrays must notice the survivor)
+        return copy.copy(sketch)
     c = copy.copy(sketch)
     # a shallow copy shares the arrays with the original: give it its own so that the two can diverge legitimately
     for a in ARRAYS[kind_of(sketch)]:
